@@ -1,0 +1,39 @@
+//go:build verif
+
+package tcpmux
+
+import (
+	"net"
+
+	"github.com/fatedier/frp/verif"
+)
+
+// auth: a CONNECT is accepted iff the user name and the password sent are both
+// exactly the configured ones; a refused CONNECT gets the challenge response.
+//
+//verif:contract (*~/pkg/util/tcpmux.HTTPConnectTCPMuxer).auth
+//verif:props C07
+func verif_HTTPConnectTCPMuxer_auth(muxer *HTTPConnectTCPMuxer, c net.Conn, username, password string, reqInfo map[string]string) {
+	u, p := reqInfo["HTTPUser"], reqInfo["HTTPPwd"]
+	verif.ResetEvents()
+	ok, err := muxer.auth(c, username, password, reqInfo)
+	verif.Ensures(err == nil, "never_errors")
+	verif.Ensures(ok == (username == u && password == p), "accepted_iff_exact_user_and_password")
+	verif.Ensures(ok || verif.Called("http.Response).Write"), "refusal_is_answered")
+}
+
+// getHostFromHTTPConnect: the request info handed to routing and to the
+// credential check is what was read from the CONNECT request.
+//
+//verif:contract (*~/pkg/util/tcpmux.HTTPConnectTCPMuxer).getHostFromHTTPConnect
+//verif:props C07 C06
+func verif_getHostFromHTTPConnect(muxer *HTTPConnectTCPMuxer, c net.Conn) {
+	verif.ResetEvents()
+	_, info, err := muxer.getHostFromHTTPConnect(c)
+	const evRead = "HTTPConnectTCPMuxer).readHTTPConnectRequest"
+	if err == nil {
+		verif.Ensures(info["Host"] == verif.RetStr(evRead, 0) && info["HTTPUser"] == verif.RetStr(evRead, 1) && info["HTTPPwd"] == verif.RetStr(evRead, 2), "request_info_is_what_was_read")
+	} else {
+		verif.Ensures(verif.RetErr(evRead, 3) != nil, "error_only_when_reading_failed")
+	}
+}
